@@ -33,6 +33,10 @@ func vCornerOps() []vCorner {
 		{q: `query($f: Filter) { pets(filter: $f) { name } }`, vars: map[string]interface{}{"f": map[string]interface{}{"tags": nil}}},
 		{q: `mutation { adopt(id: "c1") { toy name } }`},
 		{q: `{ today pets { __typename } }`},
+		// an interface nobody implements; a fragment without type condition
+		{q: `{ lonely { id } }`},
+		{q: `{ things { ... { __typename } } }`},
+		{q: `{ __schema { types { name: kind } directives { name: locations } } }`},
 		// operations the gateway cannot select
 		{q: `query A { today } query B { today }`},
 		{q: `query A { today }`, opName: "Nope"},
